@@ -142,6 +142,23 @@ Theorem overlaps_iff_intersection_nonempty : forall a b, wf a -> wf b ->
 Proof. exact overlaps_iff_inter_nonempty_p. Qed.
 Print Assumptions overlaps_iff_intersection_nonempty.
 
+(* pairwise intersection is a meet: commutative, associative, idempotent, and `contains` is the
+   order it induces -- as equalities of VALUES (canonical empty span) *)
+Theorem intersection_meet_laws : forall a b c, wf a -> wf b -> wf c ->
+  inter GEN_MAX a [b] = inter GEN_MAX b [a]
+  /\ inter GEN_MAX (inter GEN_MAX a [b]) [c] = inter GEN_MAX a [inter GEN_MAX b [c]]
+  /\ inter GEN_MAX a [a] = a.
+Proof.
+  intros a b c Ha Hb Hc; split; [ exact (inter_comm_p a b Ha Hb) | split ];
+    [ exact (inter_assoc_p a b c Ha Hb Hc) | exact (inter_idem_p a Ha) ].
+Qed.
+Print Assumptions intersection_meet_laws.
+
+Theorem contains_iff_intersection : forall a b, wf a -> wf b ->
+  (py_contains a b = true <-> inter GEN_MAX a [b] = b).
+Proof. exact contains_iff_inter_p. Qed.
+Print Assumptions contains_iff_intersection.
+
 (* non-vacuity of the algebraic laws: concrete well-formed non-empty spans in each relation *)
 Example relation_examples :
   wf (0, 10) /\ wf (10, 20) /\ wf (5, 15) /\ nonempty (0, 10) /\ nonempty (10, 20)
